@@ -178,13 +178,14 @@ def t_sig(t):
 # ------------------------------------------------------------------------------------------------ call specs
 # {"fn": "id" | ... | "solve_shapes" | "solve_axes" | "matches" | "adapter:<name>",
 #  "desc": str, "targs": [tensor specs], "kw": [[name, value spec], ...] (ordered),
+#  "tkw": [[name, tensor spec], ...] (tensors passed by keyword, in this order, before "kw"),
 #  "backend": None | ["name", n] | ["obj", n] | ["bad"],  "graph": bool,
 #  "with": [backend names of the enclosing `with einx.backend.get(n):` blocks, outermost first],
 #  "escape": bool  (a failing call propagates out of all enclosing with-blocks before it is caught)}
 def call_src(c, indent=""):
     fn = c["fn"]
     callee = f"ADAPTERS[{fn[8:]!r}]" if fn.startswith("adapter:") else f"einx.{fn}"
-    parts = [repr(c["desc"])] + [t_src(t) for t in c["targs"]] + [f"{k}={v_src(v)}" for k, v in c["kw"]]
+    parts = [repr(c["desc"])] + [t_src(t) for t in c["targs"]] + [f"{k}={t_src(t)}" for k, t in c.get("tkw") or []] + [f"{k}={v_src(v)}" for k, v in c["kw"]]
     b = c.get("backend")
     if b is not None:
         parts.append("backend=" + (repr(b[1]) if b[0] == "name" else f"einx.backend.get({b[1]!r})" if b[0] == "obj" else "42"))
@@ -195,7 +196,7 @@ def call_src(c, indent=""):
 
 def call_sig(c):
     """One-line identification of a call with the types of everything tracing could look at."""
-    parts = [repr(c["desc"])] + [t_sig(t) for t in c["targs"]] + [f"{k}={v_sig(v)}" for k, v in c["kw"]]
+    parts = [repr(c["desc"])] + [t_sig(t) for t in c["targs"]] + [f"{k}={t_sig(t)}" for k, t in c.get("tkw") or []] + [f"{k}={v_sig(v)}" for k, v in c["kw"]]
     b = c.get("backend")
     if b is not None:
         parts.append(f"backend={b[0]}:{b[1] if len(b) > 1 else ''}")
@@ -329,7 +330,8 @@ def run_call(c, env):
         fn = c["fn"]
         f = env.adapter(fn[8:]) if fn.startswith("adapter:") else getattr(einx, fn)
         args = [c["desc"]] + [env.tensor(t) for t in c["targs"]]
-        kwargs = {k: v_build(v) for k, v in c["kw"]}
+        kwargs = {k: env.tensor(t) for k, t in c.get("tkw") or []}
+        kwargs.update({k: v_build(v) for k, v in c["kw"]})
         b = c.get("backend")
         if b is not None:
             kwargs["backend"] = b[1] if b[0] == "name" else einx.backend.get(b[1]) if b[0] == "obj" else 42
